@@ -67,7 +67,7 @@ try:
     assert rc == 0, out
     for c in checks:
         for _attempt in range(3):
-            rc, out = sh(f"./check {c} --tier quick", cwd="/verif", extra={"VERIF_REPO": wt2})
+            rc, out = sh(f"./check {c} --tier quick", cwd="/verif", extra={"VERIF_REPO": wt2, "VERIF_OUT": "/verif/.scratch/seeded-out"})
             if rc != 2:
                 break
             print("check broken (exit 2), retrying:", out[-400:])
